@@ -49,4 +49,31 @@ let handle (cmd : string) (rest : string) : string =
       String.concat "|" (List.map (fun ((((p, u), r), d), t) ->
         Printf.sprintf "%d;%s;%s;%d;%s" (int_of_nat p) (nats u) (nats r) (int_of_z d) (nats t))
         (ptrace pinit ops))
+  | "L" ->
+      (* L cp cp ... : line_col / line_of for every offset, span_lines for every a <= b *)
+      let t = List.map (fun w -> n_of_int (int_of_string w)) (words rest) in
+      let len = List.length t in
+      let txt l = String.concat "." (List.map (fun x -> string_of_int (int_of_n x)) l) in
+      let b = Buffer.create 1024 in
+      for p = 0 to len do
+        let (l, c) = line_col t (nat_of_int p) in
+        Buffer.add_string b (Printf.sprintf "%d,%d,%s;" (int_of_nat l) (int_of_nat c) (txt (line_of t (nat_of_int p))))
+      done;
+      Buffer.add_char b '|';
+      for a = 0 to len do
+        for e = a to len do
+          let ls = span_lines t (nat_of_int a) (nat_of_int e) in
+          Buffer.add_string b (String.concat "/" (List.map txt ls)); Buffer.add_char b ';'
+        done
+      done;
+      Buffer.contents b
+  | "E" ->
+      (match words rest with
+       | idx :: cps ->
+           let t = List.map (fun w -> n_of_int (int_of_string w)) cps in
+           let ((line, ln), col) = error_context t (nat_of_int (int_of_string idx)) in
+           Printf.sprintf "%s|%d|%d"
+             (String.concat "." (List.map (fun x -> string_of_int (int_of_n x)) line))
+             (int_of_nat ln) (int_of_nat col)
+       | [] -> failwith "E")
   | _ -> failwith ("unknown command " ^ cmd)
